@@ -840,7 +840,9 @@ fn run_fidelity<N: W, E: W, Ty: EdgeType, Ix: WireIndex>(cfg: &Cfg, list: &[Op],
         Err(p) => viol("deserialize-panic", format!("deserialisation panicked: {}", p)),
         Ok(Err(e)) => {
             if f.benign_only && (to_stable || vacancy_free) {
-                return viol("roundtrip-rejected", format!("a stream written by petgraph under benign I/O faults only was rejected: {} (source {})", e, brief(&src_obs)));
+                let full_edges = src_obs.edges.last().map(|x| x.0 + 1).unwrap_or(0) == <Ix as IndexType>::max().index();
+                let class = if full_edges { "roundtrip-rejected-full-edge-index-space" } else { "roundtrip-rejected" };
+                return viol(class, format!("a stream written by petgraph under benign I/O faults only was rejected: {} (source {})", e, brief(&src_obs)));
             }
             Exec { violation: None, nontrivial }
         }
@@ -953,7 +955,9 @@ fn run_hostile<Ty: EdgeType + super::adjsut::Flip + Clone, Ix: WireIndex>(cfg: &
                     _ => to_stable || vacancy_free,
                 };
                 if must_load {
-                    return viol("roundtrip-rejected", format!("a stream written by petgraph under benign I/O faults only was rejected: {} (source {})", e, brief(&src_obs)));
+                    let full_edges = cfg.target != Target::GraphMap && src_obs.edges.last().map(|x| x.0 + 1).unwrap_or(0) == mx;
+                    let class = if full_edges { "roundtrip-rejected-full-edge-index-space" } else { "roundtrip-rejected" };
+                    return viol(class, format!("a stream written by petgraph under benign I/O faults only was rejected: {} (source {})", e, brief(&src_obs)));
                 }
             }
             return Exec { violation: None, nontrivial };
